@@ -166,6 +166,14 @@ def strata(V):
          [1, ["sweep", "T1", allz, True]], [1, ["sweep", "public", allz, False]]],
         [[0, ["newtable", "T1"]], [0, ["newtable", "T2"]], [0, ["init", "T2", "mass", False]],
          [0, ["init", "T1", "mass", False]], [0, ["sweep", "T2", allz, False]], [0, ["sweep", "T1", allz, False]]],
+        # an ion set / a whole table pickled, another ion used, the pickle restored
+        [[0, ["pickle_whole", "public", [26, 0, 0], 3, "ionset", "pickle:2"]],
+         [0, ["pickle_whole", "public", [8, 18, 0], -2, "ionset", "pickle:4"]],
+         [0, ["pickle_whole", "public", [29, 0, 0], 2, "table", "pickle:2"]],
+         [0, ["newtable", "T1"]], [0, ["init", "T1", "mass", False]],
+         [0, ["pickle_whole", "T1", [28, 58, 0], 2, "ionset", "pickle:2"]],
+         [0, ["pickle_whole", "T1", [28, 0, 0], 3, "table", "deepcopy"]],
+         [0, ["sweep", "T1", [0, 1, 26, 28], False]], [0, ["sweep", "public", [0, 1, 8, 26, 29], False]]],
         # a table exported into a namespace that already holds another table's names
         [[0, ["newtable", "T1"]], [0, ["define_elements", "T1", "public"]], [0, ["define_elements", "public", "T1"]],
          [0, ["define_elements", "T1", None]], [0, ["define_elements", "public", None]]],
@@ -270,6 +278,12 @@ def gen(seed, V, tier, index, bias=None):
                 evs.append([n, bad_lookup(rng, V, t, iso_ok)])
         elif fam["roundtrip"] and r < 0.65:
             evs.append([n, ["roundtrip", t, pick_atom(n, t), rng.choice(["copy", "deepcopy"] + ["pickle:%d" % p for p in PROTOS])]])
+        elif fam["roundtrip"] and r < 0.66 and rng.random() < 0.4:
+            a = pick_atom(n, t)
+            ions = V.els[a[0]]["ions"]
+            if ions:
+                evs.append([n, ["pickle_whole", t, [a[0], a[1], 0], rng.choice(ions), rng.choice(["ionset", "ionset", "table"]),
+                                rng.choice(["deepcopy", "pickle:2", "pickle:4", "pickle:0"])]])
         elif fam["container"] and r < 0.70:
             refs = [pick_atom(n, t) for _ in range(rng.choice([2, 3, 5]))]
             refs += [refs[0]]
